@@ -23,6 +23,11 @@ INT, BOOL, STR, NONE, FLOATV, RATIO, MODULE, EXTR, UNK = (
     ("int",), ("bool",), ("str",), ("none",), ("floatv",), ("ratio",), ("module",), ("extractor",), ("?",))
 
 
+# non-negative int (Lean `Nat`) and bytes-like values (`List Nat`, elements < 256 by construction): see
+# tools/gen/pyfun_aes.py and lean/S2T/Py/Bytes.lean
+NAT, BYTES = ("nat",), ("bytes",)
+
+
 def Opt(t): return ("opt", t)
 def Tup(*ts): return ("tuple", tuple(ts))
 def Lst(t): return ("list", t)
@@ -39,6 +44,8 @@ def lt(t) -> str:
     if k == "bool": return "Bool"
     if k == "str": return "S2T.Py.Str"
     if k == "none": return "Unit"
+    if k == "nat": return "Nat"
+    if k == "bytes": return "(List Nat)"
     if k == "floatv": return "S2T.Py.FloatV"
     if k == "ratio": return "S2T.ZipBomb.Ratio"
     if k == "module": return "S2T.Py.Module"
@@ -1109,7 +1116,7 @@ class ModTr:
             if getattr(getattr(obj, "__code__", None), "co_firstlineno", None) not in (
                     fdefs[fname].lineno, *(d.lineno for d in fdefs[fname].decorator_list)):
                 self.notes.append(f"{self.cfg['src']}: runtime `{fname}` is not the function defined in the source text")
-            ft = FuncTr(self, fdefs[fname], opts)
+            ft = self.cfg.get("functr", FuncTr)(self, fdefs[fname], opts)   # "functr": a subclass (pyfun_aes.py)
             text, sig = ft.translate()
             self.sigs[fname] = sig
             defs.append(text)
